@@ -172,3 +172,59 @@ def c10_m_block(ctx, v):
     n = 389 + 16 + 93 + 59 + 8 if ctx.tier == "quick" else 389 + 2 * (93 + 59) + 32
     _explore_total(ctx, v, "Block::deserialize_from_net", body, lambda ex, b: [S.Ref(S.Cell(b))], n, 4 if ctx.tier == "quick" else 5,
                    no_inline=[r"Transaction::deserialize_from_net$"])
+
+
+def c10_m_peer_service_record(ctx, v):
+    """<PeerService as TryFrom<String>>::try_from — the parser of one `service|domain|name` record
+    out of a peer's service list (message tag 9 and the tail of a handshake response) — for a
+    record of ANY byte length that splits into any number of `|`-separated pieces (1..=5
+    explored; the piece count is an explicit symbolic input tied to the length only by
+    pieces <= length + 1): it returns Ok or Err, never an index panic.  The pieces themselves
+    are opaque strings; `&str -> String` conversion is infallible."""
+    from .models import mk_ok
+    body = ctx.body(r"peer_service::<impl at [^>]*>::try_from$")
+    total = 0
+    for k in (1, 2, 3, 4, 5):
+        ex = ctx.executor(loop_bound=4, inline="auto", no_inline=[r"fmt"])
+        ex.pure = [r".*"]
+        ln = ex.fresh_value("usize", "record_len")
+
+        def hook(ex_, st, callee, args, dty, k=k, ln=ln):
+            if re.search(r"str>::split::<char>$", callee):
+                return S.Agg("struct", "SplitIter", [args[0]])
+            if re.search(r"<(?:std|core)::str::Split<'_, char> as Iterator>::collect::<Vec<&str>>$", callee):
+                return S.Seq([S.Opaque("piece%d" % i, "&str") for i in range(k)], "&str")
+            if re.search(r"(?:String|str)::len$|<impl str>::len$", callee):
+                return ex_.copy_value(ln)
+            if re.search(r"<&str as TryInto<String>>::try_into$", callee):
+                return mk_ok(dty, S.Opaque("owned!%d" % next(ex_.fresh_counter), "String"))
+            return None
+        ex.on_call = hook
+        st = S.State()
+        st.pc.append(z3.UGE(ln.bv + 1, k))
+        outs = ex.run(body, [S.Opaque("record", "String")], st)
+        v.paths += len(outs)
+        for o in outs:
+            if o.kind in ("unsupported", "unwound", "path-limit"):
+                return v.undecided("%d pieces: %s %s" % (k, o.kind, o.info))
+            if o.kind == "panic":
+                r, m = ex.model_for(o.pc)
+                v.queries += 1
+                if r == z3.sat:
+                    n = m.eval(ln.bv, model_completion=True).as_long()
+                    v.fail("a service record of %d bytes with %d `|`-separated piece(s) makes PeerService::try_from panic: %s" % (n, k, o.info), dict(record_len=n, pieces=k))
+                    if v.replay_rust is None and k - 1 <= n <= 64:
+                        rec = "|".join(["a"] * k)
+                        rec = rec + "a" * max(0, n - len(rec))
+                        v.replay_rust = ("replay_c10_peer_service_record", """
+#[test]
+fn replay_c10_peer_service_record() {
+    use saito_core::core::consensus::peers::peer_service::PeerService;
+    let _ = PeerService::try_from(String::from("%s"));   // Ok or Err, not a panic
+}
+""" % rec)
+                continue
+            if o.kind == "return":
+                total += 1
+    v.covers_total += 1
+    v.covers_sat += 1 if total else 0
